@@ -79,6 +79,14 @@ def _case(draw, tier):
                         t["args"] = t.get("args") or ["a", 1]      # the records Conductor cannot write then
                     if "rmout" in bad[str(i)] and draw(st.booleans()):
                         t["args"], t["opts"] = [], []    # nothing to record but the version itself
+            # now and then exactly one experiment ends awkwardly (see above) while the others of the invocation succeed
+            exps = [i for i, t in enumerate(g["tasks"]) if t["kind"] == "exp"]
+            awkward = draw(st.sampled_from([None, None, None, "rmout", "argsdir", "argsdir"]))
+            if awkward and exps:
+                i = draw(st.sampled_from(exps))
+                bad[str(i)] = {awkward: True}
+                if awkward == "argsdir":
+                    g["tasks"][i]["args"] = g["tasks"][i].get("args") or ["a", 1]
             s["outcomes"] = bad
             tl = draw(st.sampled_from([0, 6, 20]))
             s["tape"] = draw(st.lists(st.sampled_from([0] * 20 + list(range(1, 16))), min_size=tl, max_size=tl))
